@@ -21,12 +21,14 @@ Descriptors (all JSON):
 
 from __future__ import annotations
 
+import errno
 import fcntl
 import gc
 import html as _html
 import os
 import pty
 import re
+import signal
 import struct
 import termios
 import traceback
@@ -57,6 +59,10 @@ REQUIRE = {
     "enc_nonutf8_frames": 100,
     "partial_mode_frames": 20,
     "frames_same_object": 10,
+    "draws_interrupted_by_sigwinch": 40,
+    "redraws_judged_after_resize_during_draw": 40,
+    "draws_aborted_by_write_error": 20,
+    "redraws_judged_after_write_error": 10,
     "restarts": 40,
     "frames_after_restart:inline->alt": 10,
     "frames_after_restart:alt->inline": 10,
@@ -95,6 +101,10 @@ RULE = (
     "frame left; content() is fingerprinted before and after every draw_screen. One case in nine is a multi-session history on "
     "ONE Screen and terminal: start(alternate_buffer=a1) .. stop(); start(alternate_buffer=a2) .. (all four combinations, inline "
     "sessions starting on row 1..h-1 after the shell's CUP + ED). "
+    "Six percent of the ops are interrupted draws: (a) a user canvas whose content() changes the pty size and raises a real SIGWINCH "
+    "(same size / another size / there and back) while draw_screen iterates it, followed by the application's 'window resize' "
+    "key, get_cols_rows and a redraw (mostly of an EQUAL canvas) at the then-current size; (b) output.write() raising "
+    "EIO/EPIPE/EAGAIN once at the n-th item of the frame, followed by a redraw without clear(). "
     "Plus fixed directed histories. Distinct = hash of the whole case descriptor; non-trivial = at least one "
     "frame was drawn and compared."
 )
@@ -122,6 +132,11 @@ ASSUMES = [
     "this); between sessions the terminal keeps its state (VT: ESC[?1049l restores the cursor saved by ESC[?1049h including the "
     "character-set designations, as xterm does); before an inline session the harness plays the shell: CUP to the start row and ED. "
     "What stop() itself must restore is C12's subject, not judged here.",
+    "Interrupted draws: only frames that completed are judged.  After a resize during a draw the next draw must be a complete "
+    "repaint (the VT is GARBAGE-filled by the resize).  A draw whose write() raised is read as one of 'any sequence of screen draws': "
+    "the next completed draw must still show its canvas (I/O errors are not named in the quantifier; known finding + fix-15 rest on "
+    "this reading).  If the aborted frame stopped between 'insert mode on'/'IBM font on' and the matching 'off' the rest of the "
+    "session is not judged (counted).  errno EINTR is not injected (PEP 475: cannot surface from a real file write).",
     "BlankCanvas cannot be drawn directly (rows() raises); row tuples instead of row lists are outside the documented content() "
     "protocol ('each row is a list of (attr, cs, text) tuples') and are not generated.",
     "TERM=xterm is set while the Screen is constructed (term-specific branches 'fbterm'/'linux' are outside the quantifier).",
@@ -154,8 +169,17 @@ class Rec:
         self.fd = fd
         self.buf: list[str] = []
         self.total = 0
+        self.fail_in = None  # raise OSError(errno) from the n-th write() from now (0 = the next one), once
+        self.fail_errno = 0
+        self.failed = False
 
     def write(self, s):
+        if self.fail_in is not None:
+            if self.fail_in <= 0:
+                self.fail_in = None
+                self.failed = True
+                raise OSError(self.fail_errno, os.strerror(self.fail_errno))
+            self.fail_in -= 1
         self.buf.append(s)
         self.total += len(s)
         return len(s)
@@ -363,6 +387,8 @@ def user_canvas_class():
                 self._cols = cols
                 self._mode = mode
                 self.cursor = cursor
+                self.hook = None  # (row index, callable): called once while content() is being iterated, when armed
+                self.armed = False
 
             def cols(self):
                 return self._cols
@@ -372,7 +398,10 @@ def user_canvas_class():
 
             def content(self, trim_left=0, trim_top=0, cols=0, rows=0, attr=None):
                 prev = None
-                for row in self._rows:
+                for i, row in enumerate(self._rows):
+                    if self.armed and self.hook and self.hook[0] == i:
+                        self.armed = False
+                        self.hook[1]()
                     if self._mode == "shared" and prev is not None and prev == row:
                         yield prev
                         continue
@@ -611,6 +640,10 @@ class Session:
         self.font_before = False
         self.cy_stale = False
         self.cy_ok_since_restart = False
+        self.unjudged = False
+        self.undrawn = False  # the terminal does not hold a completed frame (aborted / abandoned draw)
+        self.after_interrupted = False
+        self.after_failed = False
         self.release = bool(cfg.get("release"))
         self.prev_canvas_id = None
         self.early_return_new_canvas = None
@@ -740,7 +773,7 @@ class Session:
     def op_winch(self):
         self.resize(self.size)
 
-    def draw(self, frame, canvas=None, tag="draw"):
+    def draw(self, frame, canvas=None, tag="draw", fail=None):
         size = frame_size(frame)
         if canvas is None:
             try:
@@ -762,9 +795,9 @@ class Session:
                 self.count(f"render_error:{type(e).__name__}")
                 return False
         if not self.release:
-            return self._draw(frame, canvas, size, tag)
+            return self._draw(frame, canvas, size, tag, fail)
         try:
-            return self._draw(frame, canvas, size, tag)
+            return self._draw(frame, canvas, size, tag, fail)
         finally:
             # the screen is the only one allowed to keep the canvas (MainLoop.draw_screen keeps none)
             self.prev_canvas_id = id(canvas)
@@ -772,7 +805,70 @@ class Session:
             del canvas
             gc.collect(1)
 
-    def _draw(self, frame, canvas, size, tag):
+    def after_failed_write(self, e):
+        """output.write() raised a non-EINTR OSError in the middle of a frame: the frame is NOT judged.  What did get
+        out reaches the terminal; the application goes on drawing (without clear())."""
+        self.feed()
+        self.count("draws_aborted_by_write_error")
+        self.after_failed = True
+        self.undrawn = True
+        self.count(f"write_error:{errno.errorcode.get(e.errno, e.errno)}")
+        self.exp = None
+        if self.vt.insert_mode or self.vt.altfont:
+            # the aborted frame stopped between "insert mode on" / "IBM font on" and the matching "off": nothing in the
+            # statement (or in urwid's docs) says how a terminal left like that is to be recovered
+            self.count("sessions_not_judged_further:write_error_inside_insert_or_font_bracket")
+            self.unjudged = True
+        return False
+
+    def draw_interrupted(self, frame, at, sizes):
+        """a draw during which the window size changes: the real SIGWINCH path fires while draw_screen iterates
+        canvas.content() (a user canvas calls back at row `at`).  The abandoned frame is not judged; then the application
+        does what MainLoop does: 'window resize' key, get_cols_rows, redraw at the then-current size."""
+        if not self.alt or self.size is None or frame_size(frame) != self.size:
+            return False
+        t = text_canvas(frame["rows"], frame["w"])
+        cur = frame.get("cur")
+        canvas = user_canvas_class()([list(r) for r in t.content()], frame["w"], "fresh", tuple(cur) if cur else None)
+
+        def fire():
+            for sz in sizes:
+                self.size = tuple(sz)
+                self.pty.set_size(*sz)
+                self.vt.resize(sz[0], sz[1], fill=GARBAGE)
+                os.kill(os.getpid(), signal.SIGWINCH)
+            if not self.scr._resized:
+                self.scr._sigwinch_handler(28, None)
+                self.count("sigwinch_delivered_by_direct_call")
+
+        size = self.size
+        canvas.hook = (min(at, len(frame["rows"]) - 1), fire)
+        canvas.armed = True
+        before = self.rec.total
+        try:
+            self.scr.draw_screen(size, canvas)
+        except Exception as e:  # noqa: BLE001
+            raise Found(f"C04|raw|draw_screen|raise:{type(e).__name__}|resize-during-draw", traceback.format_exc(limit=5)) from e
+        self.feed()
+        self.count("draws_interrupted_by_sigwinch")
+        if self.rec.total == before:
+            self.count("interrupted_draws_that_wrote_nothing")
+        keys, _raw = self.scr.parse_input(None, None, [])
+        if "window resize" not in keys:
+            raise Found("C04|raw|resize-during-draw|no-window-resize-key-afterwards", repr(keys))
+        got = self.scr.get_cols_rows()
+        if tuple(got) != tuple(self.size):
+            raise RuntimeError(f"harness: get_cols_rows {got} != {self.size}")
+        self.exp = None
+        self.last_canvas = None
+        self.last_frame = frame if frame_size(frame) == self.size else None
+        self.pending_full = True
+        self.undrawn = True
+        self.after_interrupted = True
+        self.count("resizes")
+        return False
+
+    def _draw(self, frame, canvas, size, tag, fail=None):
         try:
             exp = Expect(canvas, size, self.enc, self.pal, self.colors, self.bib)
         except Invalid:
@@ -795,13 +891,22 @@ class Session:
             reused = id(canvas) == self.prev_canvas_id
             if reused:
                 self.count("canvas_address_reused")
+        self.rec.failed = False
+        if fail is not None:
+            self.rec.fail_in, self.rec.fail_errno = fail
         try:
             self.scr.draw_screen(size, canvas)
         except Exception as e:  # noqa: BLE001
+            if isinstance(e, OSError) and self.rec.failed:
+                return self.after_failed_write(e)
             raise Found(
                 f"C04|raw|draw_screen|raise:{type(e).__name__}|last-row:{shape}",
                 f"{type(e).__name__}: {e}\n{traceback.format_exc(limit=5)}",
             ) from e
+        finally:
+            self.rec.fail_in = None
+        if self.rec.failed:
+            raise Found("C04|raw|write-error-swallowed-by-draw_screen", "output.write raised OSError (not EINTR) and draw_screen returned normally")
         data = self.feed()
         self.count(f"canvas_class:{type(canvas).__name__}")
         self.count("content_fingerprints_rechecked")
@@ -835,6 +940,7 @@ class Session:
             self.early_return_new_canvas = "address-of-the-released-previous-canvas-reused" if reused else "other"
         self.observe_paths(exp, old_exp, data)
         self.pending_full = False
+        self.undrawn = False
         self.compare(exp, "draw")
         if exp.has_c0:
             self.count("frames_with_c0_control")
@@ -861,8 +967,21 @@ class Session:
     # ---- comparison
     def compare(self, exp: Expect, phase):
         try:
+            if phase == "draw" and self.after_interrupted:
+                self.count("redraws_judged_after_resize_during_draw")
+            if phase == "draw" and self.after_failed:
+                self.count("redraws_judged_after_write_error")
             self._compare(exp, phase)
+            if phase == "draw":
+                self.after_interrupted = self.after_failed = False
         except Found as f:
+            if exp.has_c0:
+                self.after_interrupted = self.after_failed = False
+                raise Found("C04|raw|c0-control-in-canvas-text|painted-as-?-in-a-column-the-canvas-does-not-have", f.msg) from f
+            if phase == "draw" and (self.after_interrupted or self.after_failed):
+                what = "resize-during-draw" if self.after_interrupted else "write-error"
+                self.after_interrupted = self.after_failed = False
+                raise Found(f"C04|raw|redraw-after-{what}|terminal-differs-from-the-completed-redraw", f"({f.sig})\n{f.msg}") from f
             if exp.has_c0:
                 raise Found("C04|raw|c0-control-in-canvas-text|painted-as-?-in-a-column-the-canvas-does-not-have", f.msg) from f
             if self.session_no and self.cy_stale and not self.cy_ok_since_restart:
@@ -1039,7 +1158,7 @@ class Session:
         """incremental history == clear() + one full repaint of the last canvas"""
         if self.last_frame is None or frame_size(self.last_frame) != self.size:
             return
-        s1 = None if self.pending_full else self.snapshot()
+        s1 = None if (self.pending_full or self.undrawn) else self.snapshot()
         self.scr.clear()
         self.garbage()
         self.pending_full = True
@@ -1093,6 +1212,14 @@ def run_raw(ctx, case, count=True):
                     continue  # no resizes in partial-screen histories
                 if step(sess.draw, op[1]):
                     drawn += 1
+            elif k == "draw_winch":
+                if sess.started:
+                    step(sess.draw_interrupted, op[1], op[2], op[3])
+            elif k == "draw_fail":
+                if sess.started and sess.alt and frame_size(op[1]) == sess.size:
+                    step(sess.draw, op[1], fail=(op[2], getattr(errno, op[3])))
+                    if sess.unjudged:
+                        break
             elif k == "restart":
                 if sess.started:
                     step(sess.restart, op[1], op[2])
@@ -1109,7 +1236,7 @@ def run_raw(ctx, case, count=True):
                 step(sess.draw, sess.last_frame, canvas=sess.last_canvas, tag="same_object")
             elif k in ("equal", "again"):  # an equal canvas in a new object: every row is skipped
                 step(sess.draw, sess.last_frame, tag="equal")
-        if drawn:
+        if drawn and not sess.unjudged:
             step(sess.final_equivalence)
     finally:
         if sess is not None:
@@ -1763,7 +1890,28 @@ def gen_case(rng):
     ops.append(["draw", cur])
     for _ in range(rng.randint(0, 11)):
         r = rng.random()
-        if r < 0.55:
+        if r < 0.06 and cur["k"] == "text":
+            w0, h0 = frame_size(cur)
+            nxt = mutate_text_frame(rng, cur, enc, pool) if rng.random() < 0.7 else cur
+            if r < 0.03:
+                # the window size changes while draw_screen is iterating the canvas (to another size, there and back, or a
+                # SIGWINCH without change); afterwards the application redraws at the then-current size
+                q = rng.random()
+                other = [rng.choice(SIZES_W), rng.choice(SIZES_H)]
+                sizes = [[w0, h0]] if q < 0.35 else ([other, [w0, h0]] if q < 0.7 else [other])
+                ops.append(["draw_winch", nxt, rng.randrange(h0), sizes])
+                if tuple(sizes[-1]) == (w0, h0):
+                    cur = nxt if rng.random() < 0.6 else mutate_text_frame(rng, nxt, enc, pool)  # mostly an EQUAL canvas
+                else:
+                    cur = gen_text_frame(rng, sizes[-1][0], sizes[-1][1], enc, pool, c0_p=c0_p)
+                ops.append(["draw", cur])
+            else:
+                # output.write() fails once in the middle of the frame; the application draws again without clear()
+                ops.append(["draw_fail", nxt, rng.randint(0, 12), rng.choice(["EIO", "EPIPE", "EAGAIN"])])
+                q = rng.random()
+                cur = cur if q < 0.4 else (nxt if q < 0.7 else mutate_text_frame(rng, nxt, enc, pool))
+                ops.append(["draw", cur])
+        elif r < 0.55:
             if cur["k"] == "text" and rng.random() < 0.08:
                 cur = gen_other_class_frame(rng, *frame_size(cur), enc, pool)  # e.g. SolidFill(" ") over what is there now
             elif cur["k"] == "text":
@@ -2010,6 +2158,17 @@ def directed_cases():
     for a1 in (False, True):
         for a2 in (False, True):
             out.append({"cfg": dict(cfg, alt=a1, base=2), "palette": [], "ops": [["draw", top], ["draw", top2], ["restart", a2, 2], ["draw", top], ["draw", top2], ["clear"], ["draw", top]]})
+    # a draw abandoned because the window size changed while the canvas was being read, then an EQUAL canvas; a draw whose
+    # output failed half way, then the canvas of the last completed frame again
+    fa = {"k": "text", "w": 4, "rows": [[["abcd", None]], [["x   ", None]]], "cur": None, "wrap": ["text"]}
+    fb = {"k": "text", "w": 4, "rows": [[["efgh", None]], [["yz  ", None]]], "cur": [1, 1], "wrap": ["text"]}
+    for bce in (True, False):
+        c3 = dict(cfg, enc="utf-8", bce=bce)
+        for sizes in ([[4, 2]], [[7, 3], [4, 2]]):
+            for at in (0, 1):
+                out.append({"cfg": c3, "palette": [], "ops": [["draw", fa], ["draw_winch", fb, at, sizes], ["draw", fb], ["draw", fa]]})
+        for k in (3, 5, 7, 9):
+            out.append({"cfg": c3, "palette": [], "ops": [["draw", fa], ["draw_fail", fb, k, "EAGAIN"], ["draw", fa], ["draw", fb]]})
     # other canvas classes directly, over a screen that shows something else
     full = {"k": "text", "w": 4, "rows": [[["abcd", None]], [["efgh", None]], [["ijkl", None]]], "cur": None, "wrap": ["text"]}
     for enc in ("utf-8", "iso8859-1"):
